@@ -90,13 +90,15 @@ Fixpoint texts_ok07 (t : template16) : bool :=
   | SigBlock _ _ body :: r => body_ok07 body && texts_ok07 r
   | TransBlock _ _ _ :: _ => false          (* nested transition blocks carry no USER tags in the shipped files; not admitted here *)
   | InitLine _ :: _ => false
+  | TableLine _ _ :: _ => false
+  | UserLine _ :: _ => false
   end.
 
 (* every body line has a literal piece with a visible character (so no expanded copy is blank) *)
 Definition has_ink (l : uline) : bool := existsb (fun g => match g with Lit s => negb (all_ws s) | _ => false end) l.
 Definition inky (t : template16) : bool :=
   forallb (fun it => match it with Block _ _ _ body => forallb has_ink body | SigBlock _ _ body => forallb has_ink body
-                         | TransBlock _ _ _ => false | InitLine _ => false | _ => true end) t.
+                         | TransBlock _ _ _ => false | InitLine _ => false | TableLine _ _ => false | UserLine _ => false | _ => true end) t.
 
 Definition in_grammar07 (t : template16) : bool := texts_ok07 t && inky t.
 
@@ -129,6 +131,8 @@ Fixpoint keys07 (e : elements) (t : template16) : list string :=
   | SigBlock _ _ body :: r => block_keys sig_table (el_sigs e) body ++ keys07 e r
   | TransBlock _ _ _ :: r => keys07 e r
   | InitLine _ :: r => keys07 e r
+  | TableLine _ _ :: r => keys07 e r
+  | UserLine _ :: r => keys07 e r
   end.
 
 (* ---------------------------------------------------------------- the element names *)
